@@ -191,13 +191,13 @@ fn lower_item(ctx: &mut LowerCtx, node: cst::Item) -> Option<ast::Item> {
 
 fn lower_enum(ctx: &mut LowerCtx, node: cst::Enum) -> Option<ast::EnumDef> {
     let attrs = lower_attributes(node.attributes());
-    let name = node.uident().unwrap().to_string();
+    let name = node.uident()?.to_string();
     let generics: Vec<ast::AstIdent> = node
         .generic_list()
         .map(|list| {
             list.generics()
                 .flat_map(|x| {
-                    let name = x.uident().unwrap().to_string();
+                    let name = x.uident()?.to_string();
                     Some(ast::AstIdent::new(&name))
                 })
                 .collect()
@@ -265,7 +265,7 @@ fn lower_struct_field(
 
 fn lower_trait(ctx: &mut LowerCtx, node: cst::Trait) -> Option<ast::TraitDef> {
     let attrs = lower_attributes(node.attributes());
-    let name = node.uident().unwrap().to_string();
+    let name = node.uident()?.to_string();
     let methods = if let Some(list) = node.trait_method_list() {
         list.methods()
             .flat_map(|method| lower_trait_method(ctx, method))
@@ -288,7 +288,7 @@ fn lower_trait_method(
     ctx: &mut LowerCtx,
     node: cst::TraitMethod,
 ) -> Option<ast::TraitMethodSignature> {
-    let name = node.lident().unwrap().to_string();
+    let name = node.lident()?.to_string();
     let params = if let Some(list) = node.type_list() {
         list.types().flat_map(|ty| lower_ty(ctx, ty)).collect()
     } else {
@@ -325,7 +325,7 @@ fn lower_impl_block(ctx: &mut LowerCtx, node: cst::Impl) -> Option<ast::ImplBloc
         .map(|list| {
             list.generics()
                 .flat_map(|x| {
-                    let name = x.uident().unwrap().to_string();
+                    let name = x.uident()?.to_string();
                     Some(ast::AstIdent::new(&name))
                 })
                 .collect()
@@ -359,7 +359,7 @@ fn lower_variant(
     ctx: &mut LowerCtx,
     node: cst::Variant,
 ) -> Option<(ast::AstIdent, Vec<ast::TypeExpr>)> {
-    let name = node.uident().unwrap().to_string();
+    let name = node.uident()?.to_string();
     let typs = match node.type_list() {
         None => vec![],
         Some(xs) => xs.types().flat_map(|ty| lower_ty(ctx, ty)).collect(),
@@ -484,7 +484,7 @@ fn lower_ty(ctx: &mut LowerCtx, node: cst::Type) -> Option<ast::TypeExpr> {
 
 fn lower_fn(ctx: &mut LowerCtx, node: cst::Fn) -> Option<ast::Fn> {
     let attrs = lower_attributes(node.attributes());
-    let name = node.lident().unwrap().to_string();
+    let name = node.lident()?.to_string();
     let (generics, generic_bounds): (Vec<ast::AstIdent>, Vec<(ast::AstIdent, Vec<ast::Path>)>) =
         node.generic_list()
             .map(|list| {
@@ -775,7 +775,7 @@ fn lower_stmt(ctx: &mut LowerCtx, stmt: cst::Stmt) -> Option<ast::Expr> {
 }
 
 fn lower_param(ctx: &mut LowerCtx, node: cst::Param) -> Option<(ast::AstIdent, ast::TypeExpr)> {
-    let name = node.lident().unwrap().to_string();
+    let name = node.lident()?.to_string();
     let ty = match node.ty().and_then(|ty| lower_ty(ctx, ty)) {
         Some(ty) => ty,
         None => {
@@ -1976,7 +1976,7 @@ fn lower_pat(ctx: &mut LowerCtx, node: cst::Pattern) -> Option<ast::Pat> {
     match node {
         cst::Pattern::VarPat(it) => {
             let astptr = MySyntaxNodePtr::new(it.syntax());
-            let name = it.lident().unwrap().to_string();
+            let name = it.lident()?.to_string();
             let ident = ast::AstIdent(name);
             if ctx.is_constructor(&ident) {
                 Some(ast::Pat::PConstr {
